@@ -44,6 +44,8 @@ def cases(tier, seed):
                 nZ = max(2, min(nZ, 50))
             how = ['nonumbers', 'single-inline', 'single-crossline'][(i + rep) % 3]
             src = conv.src_desc(rng, '2d', (nT, nZ), how2d=how, hdr={'seed': rng.randrange(1 << 20), 'nfields': rng.randint(1, 5), 'inside': True})
+            if (i + rep) % 6 == 4:
+                src['fmt'] = [3, 2, 8][i % 3]
             if True:
                 src['offset2d'] = [None, 'vary', 'const', 'repeat', 'desc'][(i // 3 + rep) % 5]
             out.append({'id': '2d:%s:%s:%d' % (rate, 'x'.join(map(str, bs)), rep), 'src': src, 'rate': rate, 'bs': list(bs),
